@@ -1,6 +1,6 @@
 /-
 Helper lemmas for C09Vm: every arm of `Vm.step` that does not call `interpret` again commutes with
-the renaming of instruction indices (`mapState`): run at index `k = f pc` of the renamed chunk on
+the renaming of instruction indices (`mapStateP`): run at index `k = f pc` of the renamed chunk on
 the renamed state it does what it does at `pc` on the original state, renamed.
 -/
 import TeraModel.Lemmas.OptimizeSimVm
@@ -27,24 +27,44 @@ def StepRel (c c' : Chunk) (f : Nat → Nat) (P : Nat → Nat → Prop) : StepRe
   | .outOfFuel, .outOfFuel => True
   | _, _ => False
 
+/-- the same with a relation `E` between the errors of the two sides (`StepRel` is
+`StepRelG (fun _ _ => True)`) -/
+def StepRelG (E : RErr → RErr → Prop) (π : PMap) (c c' : Chunk) (f : Nat → Nat) (P : Nat → Nat → Prop) :
+    StepRes → StepRes → Prop
+  | .next p st, .next p' st' => P p p' ∧ st' = mapStateP f π st ∧ GoodState c c' f P st
+  | .err e, .err e' => E e e'
+  | .panic _, .panic _ => True
+  | .unmodelled _, .unmodelled _ => True
+  | .outOfFuel, .outOfFuel => True
+  | _, _ => False
+
+theorem StepRelG.weaken {E : RErr → RErr → Prop} {c c' : Chunk} {f : Nat → Nat} {P : Nat → Nat → Prop}
+    {a b : StepRes} (h : StepRelG E idP c c' f P a b) : StepRel c c' f P a b := by
+  cases a <;> cases b <;> first | exact h.elim | exact True.intro | skip
+  rename_i p st p' st'
+  obtain ⟨h1, h2, h3⟩ := h
+  exact ⟨h1, by rw [h2, mapStateP_id], h3⟩
+
 section basics
-variable {c c' : Chunk} {f : Nat → Nat} {P : Nat → Nat → Prop}
+variable {E : RErr → RErr → Prop} {π : PMap} {c c' : Chunk} {f : Nat → Nat} {P : Nat → Nat → Prop}
 
-theorem rel_panic (s s' : String) : StepRel c c' f P (.panic s) (.panic s') := trivial
-theorem rel_err (e e' : RErr) : StepRel c c' f P (.err e) (.err e') := trivial
-theorem rel_unmodelled (w w' : String) : StepRel c c' f P (.unmodelled w) (.unmodelled w') := trivial
+theorem rel_panic (s s' : String) : StepRelG E π c c' f P (.panic s) (.panic s') := trivial
+theorem rel_err (e e' : RErr) (h : E e e') : StepRelG E π c c' f P (.err e) (.err e') := h
+theorem rel_unmodelled (w w' : String) : StepRelG E π c c' f P (.unmodelled w) (.unmodelled w') := trivial
 
-theorem rel_raise (hR : Ren c c' f) (env : Env) (vm : VmCtx) (e e' : RErr) :
-    StepRel c c' f P (raise env vm c e) (raise env vm c' e') := by
+theorem rel_raise (hR : Ren c c' f) (env : Env) (vm : VmCtx) (e e' : RErr) (h : E e e') :
+    StepRelG E π c c' f P (raise env vm c e) (raise env vm c' e') := by
   simp only [raise, reportTargetOk_ren hR]
-  split <;> trivial
+  split
+  · exact h
+  · trivial
 
-theorem rel_renderingError (hR : Ren c c' f) (env : Env) (vm : VmCtx) (v : Value) (r : SpanRange)
+theorem rel_renderingError (hE : ∀ e, E e e) (hR : Ren c c' f) (env : Env) (vm : VmCtx) (v : Value) (r : SpanRange)
     (e : RErr) (h : GoodSlot c c' f (v, r)) :
-    StepRel c c' f P (renderingError env vm c r e) (renderingError env vm c' (mapSpan f r) e) := by
+    StepRelG E π c c' f P (renderingError env vm c r e) (renderingError env vm c' (mapSpan f r) e) := by
   simp only [renderingError, expandSpan_map r h]
   split
-  · exact rel_raise hR env vm e e
+  · exact rel_raise hR env vm e e (hE e)
   · trivial
 
 theorem goodStack_cons {s : Slot} {rest : List Slot} (h1 : GoodSlot c c' f s) (h2 : GoodStack c c' f rest) :
@@ -69,8 +89,8 @@ theorem goodSlot_val {v : Value} {r : SpanRange} (w : Value) (h : GoodSlot c c' 
 /-- the successor `pc + 1` with a new value stack -/
 theorem rel_next_stack {pc k : Nat} (hnext : P (pc + 1) (k + 1)) {st : State}
     (hst : GoodState c c' f P st) (stk : List Slot) (hstk : GoodStack c c' f stk) :
-    StepRel c c' f P (.next (pc + 1) { st with stack := stk })
-      (.next (k + 1) { mapState f st with stack := stk.map (mapSlot f) }) :=
+    StepRelG E π c c' f P (.next (pc + 1) { st with stack := stk })
+      (.next (k + 1) { mapStateP f π st with stack := stk.map (mapSlot f) }) :=
   ⟨hnext, rfl, hstk, hst.2⟩
 
 end basics
@@ -127,22 +147,23 @@ theorem popN_good : ∀ (n : Nat) (stk : List Slot) (acc a : List Value) (rest :
 end pops
 
 section arms
-variable {c c' : Chunk} {f : Nat → Nat} {P : Nat → Nat → Prop} (hR : Ren c c' f)
+variable {E : RErr → RErr → Prop} {π : PMap} (hE : ∀ e, E e e)
+  {c c' : Chunk} {f : Nat → Nat} {P : Nat → Nat → Prop} (hR : Ren c c' f)
   {pc k : Nat} (hpc : Good c c' f pc) (hk : f pc = k) (hnext : P (pc + 1) (k + 1))
   (env : Env) (vm : VmCtx) {st : State} (hst : GoodState c c' f P st)
-include hR hpc hk hnext hst
+include hE hR hpc hk hnext hst
 
 theorem own_slot (v : Value) : mapSlot f (v, (pc, pc)) = (v, (k, k)) := by
   simp [mapSlot, mapSpan, hk]
 
 theorem arm_push (v : Value) :
-    StepRel c c' f P (.next (pc + 1) (st.push v (pc, pc))) (.next (k + 1) ((mapState f st).push v (k, k))) := by
-  have := rel_next_stack (c := c) (c' := c') hnext hst ((v, (pc, pc)) :: st.stack)
+    StepRelG E π c c' f P (.next (pc + 1) (st.push v (pc, pc))) (.next (k + 1) ((mapStateP f π st).push v (k, k))) := by
+  have := rel_next_stack (E := E) (π := π) (c := c) (c' := c') hnext hst ((v, (pc, pc)) :: st.stack)
     (goodStack_cons (goodSlot_own hpc v) hst.1)
   simpa [State.push, mapSlot, mapSpan, hk] using this
 
 theorem arm_loadAttr (attr : String) (opt : Bool) :
-    StepRel c c' f P (stepLoadAttr env vm c attr opt pc st) (stepLoadAttr env vm c' attr opt k (mapState f st)) := by
+    StepRelG E π c c' f P (stepLoadAttr env vm c attr opt pc st) (stepLoadAttr env vm c' attr opt k (mapStateP f π st)) := by
   unfold stepLoadAttr
   simp only [mapState_stack]
   cases hs : st.stack with
@@ -152,12 +173,12 @@ theorem arm_loadAttr (attr : String) (opt : Bool) :
     have hgs : GoodStack c c' f ((a, r) :: rest) := hs ▸ hst.1
     simp only [List.map_cons, mapSlot]
     split
-    · have := rel_next_stack (c := c) (c' := c') hnext hst ((Value.undef, (pc, pc)) :: rest)
+    · have := rel_next_stack (E := E) (π := π) (c := c) (c' := c') hnext hst ((Value.undef, (pc, pc)) :: rest)
         (goodStack_cons (goodSlot_own hpc _) (goodStack_tail hgs))
       simpa [mapSlot, mapSpan, hk] using this
     · split
-      · exact rel_renderingError hR env vm a r _ (goodStack_head hgs)
-      · have := rel_next_stack (c := c) (c' := c') hnext hst
+      · exact rel_renderingError hE hR env vm a r _ (goodStack_head hgs)
+      · have := rel_next_stack (E := E) (π := π) (c := c) (c' := c') hnext hst
           (((a.getAttr attr.toList).getD Value.undef, (pc, pc)) :: rest)
           (goodStack_cons (goodSlot_own hpc _) (goodStack_tail hgs))
         simpa [mapSlot, mapSpan, hk] using this
@@ -165,11 +186,11 @@ theorem arm_loadAttr (attr : String) (opt : Bool) :
 
 /-- close a `.next (pc+1)` goal: give the new stack and its goodness -/
 local macro "nx " stk:term " , " h:term : tactic =>
-  `(tactic| (have hnx := rel_next_stack (c := c) (c' := c') hnext hst $stk $h
+  `(tactic| (have hnx := rel_next_stack (E := E) (π := π) (c := c) (c' := c') hnext hst $stk $h
              simpa [mapSlot, mapSpan, hk] using hnx))
 
 theorem arm_subscript (opt : Bool) :
-    StepRel c c' f P (stepSubscript env vm c opt pc st) (stepSubscript env vm c' opt k (mapState f st)) := by
+    StepRelG E π c c' f P (stepSubscript env vm c opt pc st) (stepSubscript env vm c' opt k (mapStateP f π st)) := by
   unfold stepSubscript
   simp only [mapState_stack]
   cases hs : st.stack with
@@ -188,19 +209,19 @@ theorem arm_subscript (opt : Bool) :
       split
       · nx ((Value.undef, (pc, pc)) :: rest) , (goodStack_cons (goodSlot_own hpc _) hr)
       · split
-        · exact rel_renderingError hR env vm val valSpan _ h2
+        · exact rel_renderingError hE hR env vm val valSpan _ h2
         · split
-          · exact rel_renderingError hR env vm sub subSpan _ h1
+          · exact rel_renderingError hE hR env vm sub subSpan _ h1
           · split
             · rename_i v _
               have hcm := combine_map hR val sub valSpan subSpan h2 h1
-              have hnx := rel_next_stack (c := c) (c' := c') hnext hst ((v, combineSpans valSpan subSpan) :: rest)
+              have hnx := rel_next_stack (E := E) (π := π) (c := c) (c' := c') hnext hst ((v, combineSpans valSpan subSpan) :: rest)
                 (goodStack_cons (combine_good val sub v valSpan subSpan h2 h1) hr)
               simpa [mapSlot, hcm] using hnx
-            · exact rel_renderingError hR env vm sub subSpan _ h1
+            · exact rel_renderingError hE hR env vm sub subSpan _ h1
 
 theorem arm_slice (opt : Bool) :
-    StepRel c c' f P (stepSlice env vm c opt pc st) (stepSlice env vm c' opt k (mapState f st)) := by
+    StepRelG E π c c' f P (stepSlice env vm c opt pc st) (stepSlice env vm c' opt k (mapStateP f π st)) := by
   unfold stepSlice
   simp only [mapState_stack]
   match hs : st.stack with
@@ -216,30 +237,30 @@ theorem arm_slice (opt : Bool) :
     split
     · nx ((Value.undef, (pc, pc)) :: rest) , (goodStack_cons (goodSlot_own hpc _) hr)
     · split
-      · exact rel_renderingError hR env vm val valSpan _ h4
+      · exact rel_renderingError hE hR env vm val valSpan _ h4
       · split
-        · exact rel_renderingError hR env vm start startSpan _ h3
+        · exact rel_renderingError hE hR env vm start startSpan _ h3
         · split
-          · exact rel_renderingError hR env vm stop stopSpan _ h2
+          · exact rel_renderingError hE hR env vm stop stopSpan _ h2
           · split
-            · exact rel_renderingError hR env vm step stepSpan _ h1
+            · exact rel_renderingError hE hR env vm step stepSpan _ h1
             · split
               · rename_i v _
                 nx ((v, valSpan) :: rest) , (goodStack_cons (goodSlot_val v h4) hr)
-              · exact rel_renderingError hR env vm val valSpan _ h4
+              · exact rel_renderingError hE hR env vm val valSpan _ h4
   | [] => exact rel_panic _ _
   | [_] => exact rel_panic _ _
   | [_, _] => exact rel_panic _ _
   | [_, _, _] => exact rel_panic _ _
 
 theorem arm_writeText (t : List Char) :
-    StepRel c c' f P (.next (pc + 1) (st.write t)) (.next (k + 1) ((mapState f st).write t)) := by
-  refine ⟨hnext, mapState_write f st t, ?_⟩
+    StepRelG E π c c' f P (.next (pc + 1) (st.write t)) (.next (k + 1) ((mapStateP f π st).write t)) := by
+  refine ⟨hnext, mapState_write f π st t, ?_⟩
   unfold State.write
   cases st.captures <;> exact hst
 
 theorem arm_writeTop :
-    StepRel c c' f P (stepWriteTop env vm c pc st) (stepWriteTop env vm c' k (mapState f st)) := by
+    StepRelG E π c c' f P (stepWriteTop env vm c pc st) (stepWriteTop env vm c' k (mapStateP f π st)) := by
   unfold stepWriteTop
   simp only [mapState_stack]
   cases hs : st.stack with
@@ -249,16 +270,16 @@ theorem arm_writeTop :
     have hgs : GoodStack c c' f ((top, topSpan) :: rest) := hs ▸ hst.1
     simp only [List.map_cons, mapSlot]
     split
-    · exact rel_renderingError hR env vm top topSpan _ (goodStack_head hgs)
+    · exact rel_renderingError hE hR env vm top topSpan _ (goodStack_head hgs)
     · refine ⟨hnext, ?_, ?_⟩
-      · have : ({ mapState f st with stack := rest.map (mapSlot f) } : State) = mapState f { st with stack := rest } := rfl
+      · have : ({ mapStateP f π st with stack := rest.map (mapSlot f) } : State) = mapStateP f π { st with stack := rest } := rfl
         rw [this, mapState_emit]
       · simp only [emitValue, State.write]
         cases st.captures <;> exact ⟨goodStack_tail hgs, hst.2⟩
 
 
 theorem arm_set (n : String) (g : Bool) :
-    StepRel c c' f P (stepSet n g pc st) (stepSet n g k (mapState f st)) := by
+    StepRelG E π c c' f P (stepSet n g pc st) (stepSet n g k (mapStateP f π st)) := by
   unfold stepSet
   simp only [mapState_stack]
   cases hs : st.stack with
@@ -268,7 +289,7 @@ theorem arm_set (n : String) (g : Bool) :
     have hgs : GoodStack c c' f ((v, r) :: rest) := hs ▸ hst.1
     simp only [List.map_cons, mapSlot]
     refine ⟨hnext, ?_, goodStack_tail hgs, ?_⟩
-    · cases g <;> simp [mapState]
+    · cases g <;> simp [mapStateP]
     · intro l hl
       cases g
       · -- storeLocal: the innermost loop gets an assignment
@@ -295,26 +316,26 @@ theorem arm_set (n : String) (g : Bool) :
 /-! ### popping loops -/
 
 theorem arm_buildMap (n : Nat) :
-    StepRel c c' f P (stepBuildMap n pc st) (stepBuildMap n k (mapState f st)) := by
+    StepRelG E π c c' f P (stepBuildMap n pc st) (stepBuildMap n k (mapStateP f π st)) := by
   unfold stepBuildMap
   split
-  · exact arm_push hR hpc hk hnext hst _
+  · exact arm_push hE hR hpc hk hnext hst _
   · simp only [mapState_stack, popPairs_map]
     cases hp : popPairs n st.stack [] with
     | panic s => exact rel_panic _ _
-    | err e => exact rel_err _ _
+    | err e => exact rel_err _ _ (hE _)
     | ok elems rest =>
       simp only
       nx ((Value.map (elems.foldl (fun m e => mapInsert m e.1 e.2) []), (pc, pc)) :: rest) ,
         (goodStack_cons (goodSlot_own hpc _) (popPairs_good n _ _ _ _ hst.1 hp))
 
 theorem arm_buildList (n : Nat) :
-    StepRel c c' f P (stepBuildList n pc st) (stepBuildList n k (mapState f st)) := by
+    StepRelG E π c c' f P (stepBuildList n pc st) (stepBuildList n k (mapStateP f π st)) := by
   unfold stepBuildList
   simp only [mapState_stack, popN_map]
   cases hp : popN n st.stack [] with
   | panic s => exact rel_panic _ _
-  | err e => exact rel_err _ _
+  | err e => exact rel_err _ _ (hE _)
   | ok elems rest =>
     simp only
     nx ((Value.arr elems, (pc, pc)) :: rest) ,
@@ -322,7 +343,7 @@ theorem arm_buildList (n : Nat) :
 
 
 theorem arm_equal (neg : Bool) :
-    StepRel c c' f P (stepEqual neg pc st) (stepEqual neg k (mapState f st)) := by
+    StepRelG E π c c' f P (stepEqual neg pc st) (stepEqual neg k (mapStateP f π st)) := by
   unfold stepEqual
   simp only [mapState_stack]
   cases hs : st.stack with
@@ -338,14 +359,14 @@ theorem arm_equal (neg : Bool) :
       have ha := goodStack_head (goodStack_tail hgs)
       have hr := goodStack_tail (goodStack_tail hgs)
       simp only [List.map_cons, mapSlot, combine_map hR a b aSpan bSpan ha hb]
-      have hnx := rel_next_stack (c := c) (c' := c') hnext hst
+      have hnx := rel_next_stack (E := E) (π := π) (c := c) (c' := c') hnext hst
         ((Value.bool (if neg then !valueEq a b else valueEq a b), combineSpans aSpan bSpan) :: rest)
         (goodStack_cons (combine_good a b _ aSpan bSpan ha hb) hr)
       simpa [mapSlot] using hnx
 
 
 theorem arm_strConcat :
-    StepRel c c' f P (stepStrConcat env pc st) (stepStrConcat env k (mapState f st)) := by
+    StepRelG E π c c' f P (stepStrConcat env pc st) (stepStrConcat env k (mapStateP f π st)) := by
   unfold stepStrConcat
   simp only [mapState_stack]
   cases hs : st.stack with
@@ -363,10 +384,10 @@ theorem arm_strConcat :
       have hab := combine_good (c := c) (c' := c') (f := f) a b
       simp only [List.map_cons, mapSlot, combine_map hR a b aSpan bSpan ha hb]
       refine ⟨hnext, ?_, goodStack_cons (hab Value.undef aSpan bSpan ha hb) hr, hst.2⟩
-      simp [mapState, mapSlot]
+      simp [mapStateP, mapSlot]
 
 theorem arm_cmp (op : CmpOp) :
-    StepRel c c' f P (stepCmp env vm c op pc st) (stepCmp env vm c' op k (mapState f st)) := by
+    StepRelG E π c c' f P (stepCmp env vm c op pc st) (stepCmp env vm c' op k (mapStateP f π st)) := by
   unfold stepCmp
   simp only [mapState_stack]
   cases hs : st.stack with
@@ -385,14 +406,14 @@ theorem arm_cmp (op : CmpOp) :
       simp only [List.map_cons, mapSlot, combine_map hR a b aSpan bSpan ha hb]
       split
       · rename_i o _
-        have hnx := rel_next_stack (c := c) (c' := c') hnext hst
+        have hnx := rel_next_stack (E := E) (π := π) (c := c) (c' := c') hnext hst
           ((Value.bool (cmpTest op o), combineSpans aSpan bSpan) :: rest)
           (goodStack_cons (hab (Value.undef) aSpan bSpan ha hb) hr)
         simpa [mapSlot] using hnx
-      · exact rel_renderingError hR env vm a _ _ (hab a aSpan bSpan ha hb)
+      · exact rel_renderingError hE hR env vm a _ _ (hab a aSpan bSpan ha hb)
 
 theorem arm_plus :
-    StepRel c c' f P (stepPlus env vm c pc st) (stepPlus env vm c' k (mapState f st)) := by
+    StepRelG E π c c' f P (stepPlus env vm c pc st) (stepPlus env vm c' k (mapStateP f π st)) := by
   unfold stepPlus
   simp only [mapState_stack]
   cases hs : st.stack with
@@ -412,15 +433,15 @@ theorem arm_plus :
       split
       · split
         · rename_i v _
-          have hnx := rel_next_stack (c := c) (c' := c') hnext hst
+          have hnx := rel_next_stack (E := E) (π := π) (c := c) (c' := c') hnext hst
             ((v, combineSpans aSpan bSpan) :: rest)
             (goodStack_cons (hab v aSpan bSpan ha hb) hr)
           simpa [mapSlot] using hnx
-        · exact rel_renderingError hR env vm a _ _ (hab a aSpan bSpan ha hb)
-      · exact rel_renderingError hR env vm a _ _ (hab a aSpan bSpan ha hb)
+        · exact rel_renderingError hE hR env vm a _ _ (hab a aSpan bSpan ha hb)
+      · exact rel_renderingError hE hR env vm a _ _ (hab a aSpan bSpan ha hb)
 
 theorem arm_math (op : MathOp) :
-    StepRel c c' f P (stepMath env vm c op pc st) (stepMath env vm c' op k (mapState f st)) := by
+    StepRelG E π c c' f P (stepMath env vm c op pc st) (stepMath env vm c' op k (mapStateP f π st)) := by
   unfold stepMath
   simp only [mapState_stack]
   cases hs : st.stack with
@@ -438,20 +459,20 @@ theorem arm_math (op : MathOp) :
       have hab := combine_good (c := c) (c' := c') (f := f) a b
       simp only [List.map_cons, mapSlot, combine_map hR a b aSpan bSpan ha hb]
       split
-      · exact rel_renderingError hR env vm a _ _ ha
+      · exact rel_renderingError hE hR env vm a _ _ ha
       · split
-        · exact rel_renderingError hR env vm b _ _ hb
+        · exact rel_renderingError hE hR env vm b _ _ hb
         · split
           · rename_i v _
-            have hnx := rel_next_stack (c := c) (c' := c') hnext hst
+            have hnx := rel_next_stack (E := E) (π := π) (c := c) (c' := c') hnext hst
               ((v, combineSpans aSpan bSpan) :: rest)
               (goodStack_cons (hab v aSpan bSpan ha hb) hr)
             simpa [mapSlot] using hnx
-          · exact rel_renderingError hR env vm b _ _ hb
-          · exact rel_renderingError hR env vm a _ _ (hab a aSpan bSpan ha hb)
+          · exact rel_renderingError hE hR env vm b _ _ hb
+          · exact rel_renderingError hE hR env vm a _ _ (hab a aSpan bSpan ha hb)
 
 theorem arm_in :
-    StepRel c c' f P (stepIn env vm c pc st) (stepIn env vm c' k (mapState f st)) := by
+    StepRelG E π c c' f P (stepIn env vm c pc st) (stepIn env vm c' k (mapStateP f π st)) := by
   unfold stepIn
   simp only [mapState_stack]
   cases hs : st.stack with
@@ -471,10 +492,10 @@ theorem arm_in :
       split
       · rename_i r _
         nx ((Value.bool r, (pc, pc)) :: rest) , (goodStack_cons (goodSlot_own hpc _) hr)
-      · exact rel_renderingError hR env vm b _ _ hb
+      · exact rel_renderingError hE hR env vm b _ _ hb
 
 theorem arm_not :
-    StepRel c c' f P (stepNot pc st) (stepNot k (mapState f st)) := by
+    StepRelG E π c c' f P (stepNot pc st) (stepNot k (mapStateP f π st)) := by
   unfold stepNot
   simp only [mapState_stack]
   cases hs : st.stack with
@@ -485,12 +506,12 @@ theorem arm_not :
     have ha := goodStack_head hgs
     have hr := goodStack_tail hgs
     simp only [List.map_cons, mapSlot]
-    have hnx := rel_next_stack (c := c) (c' := c') hnext hst
+    have hnx := rel_next_stack (E := E) (π := π) (c := c) (c' := c') hnext hst
       ((Value.bool (!a.isTruthy), aSpan) :: rest) (goodStack_cons (goodSlot_val _ ha) hr)
     simpa [mapSlot] using hnx
 
 theorem arm_negative :
-    StepRel c c' f P (stepNegative env vm c pc st) (stepNegative env vm c' k (mapState f st)) := by
+    StepRelG E π c c' f P (stepNegative env vm c pc st) (stepNegative env vm c' k (mapStateP f π st)) := by
   unfold stepNegative
   simp only [mapState_stack]
   cases hs : st.stack with
@@ -503,13 +524,13 @@ theorem arm_negative :
     simp only [List.map_cons, mapSlot]
     split
     · rename_i v _
-      have hnx := rel_next_stack (c := c) (c' := c') hnext hst
+      have hnx := rel_next_stack (E := E) (π := π) (c := c) (c' := c') hnext hst
         ((v, aSpan) :: rest) (goodStack_cons (goodSlot_val _ ha) hr)
       simpa [mapSlot] using hnx
-    · exact rel_renderingError hR env vm a _ _ ha
+    · exact rel_renderingError hE hR env vm a _ _ ha
 
 theorem arm_popJumpIfFalse (t : Nat) (ht : P t (f t)) :
-    StepRel c c' f P (stepPopJumpIfFalse t pc st) (stepPopJumpIfFalse (f t) k (mapState f st)) := by
+    StepRelG E π c c' f P (stepPopJumpIfFalse t pc st) (stepPopJumpIfFalse (f t) k (mapStateP f π st)) := by
   unfold stepPopJumpIfFalse
   simp only [mapState_stack]
   cases hs : st.stack with
@@ -522,11 +543,11 @@ theorem arm_popJumpIfFalse (t : Nat) (ht : P t (f t)) :
     simp only [List.map_cons, mapSlot]
     have hg : GoodState c c' f P { st with stack := rest } := ⟨hr, hst.2⟩
     split
-    · exact ⟨ht, by simp [mapState], hg⟩
-    · exact ⟨hnext, by simp [mapState], hg⟩
+    · exact ⟨ht, by simp [mapStateP], hg⟩
+    · exact ⟨hnext, by simp [mapStateP], hg⟩
 
 theorem arm_jumpOrPop (w : Bool) (t : Nat) (ht : P t (f t)) :
-    StepRel c c' f P (stepJumpOrPop w t pc st) (stepJumpOrPop w (f t) k (mapState f st)) := by
+    StepRelG E π c c' f P (stepJumpOrPop w t pc st) (stepJumpOrPop w (f t) k (mapStateP f π st)) := by
   unfold stepJumpOrPop
   simp only [mapState_stack]
   cases hs : st.stack with
@@ -541,30 +562,30 @@ theorem arm_jumpOrPop (w : Bool) (t : Nat) (ht : P t (f t)) :
     generalize (if w then a.isTruthy else !a.isTruthy) = cond
     cases cond
     · simp only [Bool.false_eq_true, ↓reduceIte]
-      exact ⟨hnext, by simp [mapState], hg⟩
+      exact ⟨hnext, by simp [mapStateP], hg⟩
     · simp only [↓reduceIte]
       exact ⟨ht, rfl, hst⟩
 
 theorem arm_jump (t : Nat) (ht : P t (f t)) :
-    StepRel c c' f P (.next t st) (.next (f t) (mapState f st)) := ⟨ht, rfl, hst⟩
+    StepRelG E π c c' f P (.next t st) (.next (f t) (mapStateP f π st)) := ⟨ht, rfl, hst⟩
 
 theorem arm_capture :
-    StepRel c c' f P (.next (pc + 1) { st with captures := [] :: st.captures })
-      (.next (k + 1) { (mapState f st) with captures := [] :: (mapState f st).captures }) :=
+    StepRelG E π c c' f P (.next (pc + 1) { st with captures := [] :: st.captures })
+      (.next (k + 1) { (mapStateP f π st) with captures := [] :: (mapStateP f π st).captures }) :=
   ⟨hnext, rfl, hst⟩
 
 theorem arm_endCapture :
-    StepRel c c' f P (stepEndCapture pc st) (stepEndCapture k (mapState f st)) := by
+    StepRelG E π c c' f P (stepEndCapture pc st) (stepEndCapture k (mapStateP f π st)) := by
   unfold stepEndCapture
   simp only [mapState_captures]
   cases st.captures with
   | nil => exact rel_panic _ _
   | cons buf restCaps =>
     refine ⟨hnext, ?_, goodStack_cons (goodSlot_own hpc _) hst.1, hst.2⟩
-    simp [mapState, mapSlot, mapSpan, hk]
+    simp [mapStateP, mapSlot, mapSpan, hk]
 
 theorem arm_appendToList :
-    StepRel c c' f P (stepAppendToList pc st) (stepAppendToList k (mapState f st)) := by
+    StepRelG E π c c' f P (stepAppendToList pc st) (stepAppendToList k (mapStateP f π st)) := by
   unfold stepAppendToList
   simp only [mapState_stack]
   cases hs : st.stack with
@@ -583,7 +604,7 @@ theorem arm_appendToList :
       simp only [List.map_cons, mapSlot, combine_map hR a b aSpan bSpan ha hb]
       split
       · rename_i xs
-        have hnx := rel_next_stack (c := c) (c' := c') hnext hst
+        have hnx := rel_next_stack (E := E) (π := π) (c := c) (c' := c') hnext hst
           ((Value.arr (xs ++ [b]), aSpan) :: rest) (goodStack_cons (goodSlot_val _ ha) hr)
         simpa [mapSlot] using hnx
       · exact rel_panic _ _
